@@ -279,4 +279,116 @@ theorem pStep_lift_off {g : Geom} {pst : PSt K} {st : St K} (h : ParamsOff g pst
 
 end
 
+/-! ### reference-level model (aliasing) -/
+
+/-- well-formedness of a reference-level state: handles and the accumulator point into the heap, and the
+caller holds no handle on the accumulator -/
+structure RInv (st : RSt K) : Prop where
+  known_lt : ∀ r ∈ st.known, r < st.heap.length
+  acc_lt : ∀ a, st.acc = some a → a < st.heap.length
+  acc_private : ∀ a, st.acc = some a → a ∉ st.known
+
+/-- the value-level state a reference-level state stands for -/
+def absSt (st : RSt K) : St K := { acc := st.accVal }
+
+theorem RInv.init : RInv ({} : RSt K) := ⟨by simp, by simp, by simp⟩
+
+theorem at_append_lt (st : RSt K) (x : List K) (r : Nat) (h : r < st.heap.length) :
+    ({ st with heap := st.heap ++ [x] } : RSt K).at r = st.at r := by
+  simp [RSt.at, List.getD_eq_getElem?_getD, List.getElem?_append_left h]
+
+theorem getD_append_lt (l : List (List K)) (x : List K) (r : Nat) (h : r < l.length) :
+    (l ++ [x]).getD r [] = l.getD r [] := by
+  simp [List.getD_eq_getElem?_getD, List.getElem?_append_left h]
+
+theorem getD_append_self (l : List (List K)) (x : List K) : (l ++ [x]).getD l.length [] = x := by
+  simp [List.getD_eq_getElem?_getD]
+
+theorem getD_set_ne (l : List (List K)) (x : List K) (r a : Nat) (h : r ≠ a) :
+    (l.set r x).getD a [] = l.getD a [] := by
+  simp [List.getD_eq_getElem?_getD, List.getElem?_set_ne h]
+
+theorem rStep_inv (g : Geom) (st : RSt K) (op : ROp K) (h : RInv st) : RInv (rStep g st op).1 := by
+  obtain ⟨h1, h2, h3⟩ := h
+  cases op with
+  | alloc v =>
+    refine ⟨?_, ?_, ?_⟩ <;> simp only [rStep, List.length_append, List.length_singleton, List.mem_append, List.mem_singleton]
+    · rintro r (hr | rfl)
+      · have := h1 r hr; omega
+      · omega
+    · intro a ha; have := h2 a ha; omega
+    · intro a ha
+      rintro (hk | rfl)
+      · exact h3 a ha hk
+      · have := h2 _ ha; omega
+  | write r v =>
+    simp only [rStep]
+    split
+    · exact ⟨by simpa using h1, by simpa using h2, h3⟩
+    · exact ⟨h1, h2, h3⟩
+  | integrate buf dt w =>
+    simp only [rStep]
+    split
+    · refine ⟨?_, ?_, ?_⟩ <;> simp only [List.length_append, List.length_singleton, Option.some.injEq]
+      · intro r hr; have := h1 r hr; omega
+      · rintro a rfl; omega
+      · rintro a rfl hk; have := h1 _ hk; omega
+    · exact ⟨h1, h2, h3⟩
+  | readOut =>
+    refine ⟨?_, ?_, ?_⟩ <;> simp only [rStep, List.length_append, List.length_singleton, List.mem_append, List.mem_singleton]
+    · rintro r (hr | rfl)
+      · have := h1 r hr; omega
+      · omega
+    · intro a ha; simp at ha
+    · intro a ha; simp at ha
+
+theorem accVal_congr (st st' : RSt K) (hacc : st'.acc = st.acc)
+    (hheap : ∀ a, st.acc = some a → st'.heap.getD a [] = st.heap.getD a []) : st'.accVal = st.accVal := by
+  cases ha : st.acc with
+  | none => simp [RSt.accVal, ha, hacc]
+  | some a => simp only [RSt.accVal, hacc, ha, Option.map_some, RSt.at, hheap a ha]
+
+theorem absSt_alloc (g : Geom) (st : RSt K) (v : List K) (h : RInv st) :
+    absSt (rStep g st (.alloc v)).1 = absSt st := by
+  have := accVal_congr st { st with heap := st.heap ++ [v], known := st.known ++ [st.heap.length] } rfl
+    (fun a ha => getD_append_lt _ _ _ (h.acc_lt a ha))
+  simp only [absSt, rStep, this]
+
+theorem absSt_write (g : Geom) (st : RSt K) (r : Nat) (v : List K) (h : RInv st) :
+    absSt (rStep g st (.write r v)).1 = absSt st := by
+  simp only [rStep]
+  split
+  · rename_i hk
+    have hk' : r ∈ st.known := by simpa using hk
+    have := accVal_congr st { st with heap := st.heap.set r v } rfl
+      (fun a ha => getD_set_ne _ _ _ _ (fun e => h.acc_private a ha (by rw [← e]; exact hk')))
+    simp only [absSt, this]
+  · rfl
+
+theorem absSt_integrate (g : Geom) (st : RSt K) (buf : Nat) (dt w : K) (h : RInv st) :
+    absSt (rStep g st (.integrate buf dt w)).1 = (step g (absSt st) (.integrate (st.at buf) dt w)).1 := by
+  simp only [rStep, step, Detector.integrate]
+  split
+  · simp only [absSt, RSt.accVal, Option.map_some, RSt.at, getD_append_self]
+  · rfl
+
+theorem absSt_readOut (g : Geom) (st : RSt K) :
+    absSt (rStep g st .readOut).1 = (step g (absSt st) .readOut).1 ∧
+      (step g (absSt st) .readOut).2 = .image ((rStep g st .readOut).1.at st.heap.length) := by
+  constructor
+  · simp [rStep, step, readOut, absSt, RSt.accVal]
+  · simp only [rStep, step, readOut, absSt, RSt.at, getD_append_self]
+
+theorem rRun_cons (g : Geom) (st : RSt K) (op : ROp K) (ops : List (ROp K)) :
+    rRun g st (op :: ops) = ((rRun g (rStep g st op).1 ops).1, (rStep g st op).2 :: (rRun g (rStep g st op).1 ops).2) := rfl
+
+theorem rStep_known_sub (g : Geom) (st : RSt K) (op : ROp K) : ∀ r ∈ st.known, r ∈ (rStep g st op).1.known := by
+  intro r hr
+  cases op with
+  | alloc v => simp [rStep, hr]
+  | write r' v => simp only [rStep]; split <;> exact hr
+  | integrate buf dt w => simp only [rStep]; split <;> exact hr
+  | readOut => simp [rStep, hr]
+
+
 end HcipyVerif.Detector
